@@ -249,5 +249,16 @@ M['fixDict']=mut('fixDict','internal/puregen/gengo/qt_dict.qtpl.go',[(_dict_read
    ("qw422016.N().S(`            key := in.UnsafeFieldName(true)","qw422016.N().S(`            key := in.UnsafeFieldName(false)",1),
    ("(*vec)[index].Key = append((*vec)[index].Key[:0], in.UnsafeFieldName(true)...)","(*vec)[index].Key = append((*vec)[index].Key[:0], in.UnsafeFieldName(false)...)",1)])
 M['fixDictB']=mut('fixDictB','pkg/basictl/basictl.go',[("func JSONWriteString(w []byte, s string) []byte {","// JSONStringIsText reports whether JSONWriteString writes s as a JSON string (and not as a {\"base64\":...} object).\nfunc JSONStringIsText(s string) bool { return utf8.ValidString(s) }\n\nfunc JSONWriteString(w []byte, s string) []byte {",1)])
+
+# defects fixed in /repo after this check reported them: the pre-fix file of the fixing commit is a breaking change
+def prefix(name, commit, rel):
+    import subprocess
+    d='/var/tmp/c0506-mut/'+name; os.makedirs(d,exist_ok=True)
+    p=d+'/'+os.path.basename(rel)
+    open(p,'w').write(subprocess.check_output(['git','-C','/repo','show',commit+'^:'+rel],text=True))
+    return rel+'='+p
+M['c06m7']=prefix('c06m7','2d477779','internal/puregen/gengo/qt_union.qtpl.go')   # G2: {"ok":true} rejected for Maybe<union/enum>
+M['c06m8']=prefix('c06m8','514ac841','internal/puregen/gengo/qt_struct.qtpl.go')  # G4: masked recursive field left nil (TL2-enabled)
+M['c05m7']=prefix('c05m7','a4f08751','internal/puregen/gengo/qt_maybe.qtpl.go')   # F3: Maybe JSON writer dereferences a nil receiver
 for k in sys.argv[1:]:
     print(M[k])
